@@ -145,4 +145,48 @@ theorem prev_on_first_page_is_no_match (env : Env) (lang : Option Bytes) (rest :
     rw [List.getElem?_set_ne (by decide), List.getElem?_set_ne (by decide)]
     simp [hl]
 
+/-- **The invalid-input message shows the input, whatever bytes it contains** (since the fix that prepends the error
+text to the rendered OUTPUT; before it the text was prepended to the template SOURCE and parsed with it, so an accepted
+input containing `{{` made the page fail or was executed as a template action): a page that renders to `r` without an
+error text renders to `e ++ "\n" ++ r` with the error text `e`, for every `e`. -/
+theorem error_prefix_is_literal (env : RenderEnv) (pg : Page) (sym : Bytes) (values : List (Bytes × Bytes)) (idx : Nat)
+    (e r t : Bytes) (ht : env.tpl sym = some t) (hne : (t ++ pg.extra).length ≠ 0)
+    (h : ({ pg with err := none }).renderTemplate env sym values idx = .ok r) :
+    ({ pg with err := some e }).renderTemplate env sym values idx = .ok (e ++ [0x0a] ++ r) := by
+  unfold Page.renderTemplate at h ⊢
+  simp only [ht, Res.bind_ok] at h ⊢
+  cases hs : pg.sizer with
+  | none =>
+    simp only [hs] at h ⊢
+    by_cases hi : idx > 0
+    · simp [hi] at h
+    · simp only [hi, if_false, Res.bind_ok] at h ⊢
+      cases hx : execTpl (t ++ pg.extra) values with
+      | ok r' =>
+        simp only [hx, Res.bind_ok, pure, Res.ok.injEq] at h ⊢
+        subst h
+        have hne' : ¬ (t = [] ∧ pg.extra = []) := by
+          intro hh; apply hne; simp [hh.1, hh.2]
+        simp
+        intro h1 h2; exact hne' ⟨h1, h2⟩
+      | err k => simp [hx] at h
+      | panic k => simp [hx] at h
+  | some sz =>
+    simp only [hs] at h ⊢
+    cases hg : sz.getAt values idx with
+    | ok vs =>
+      simp only [hg, Res.bind_ok] at h ⊢
+      cases hx : execTpl (t ++ pg.extra) vs with
+      | ok r' =>
+        simp only [hx, Res.bind_ok, pure, Res.ok.injEq] at h ⊢
+        subst h
+        have hne' : ¬ (t = [] ∧ pg.extra = []) := by
+          intro hh; apply hne; simp [hh.1, hh.2]
+        simp
+        intro h1 h2; exact hne' ⟨h1, h2⟩
+      | err k => simp [hx] at h
+      | panic k => simp [hx] at h
+    | err k => simp [hg] at h
+    | panic k => simp [hg] at h
+
 end Vise.C03
